@@ -324,6 +324,8 @@ def run_history(probe, h):
                 _, rr = nxt('raw')
                 b = bytes.fromhex(rr['bytes'])
                 _, r = nxt('tear_scan')
+                from .C09 import expand_same
+                expand_same(r['scans'], ('entries',))
                 for sc in r['scans']:
                     check_loaded('tear at %d of %d' % (sc['n'], len(b)), b[:sc['n']], sc['entries'], sc['load'], sc['warn'], written, truth)
                 labels.add('tear_scan')
